@@ -33,6 +33,18 @@ HIST_ASSUME = ["all events of one vBucket are fed by one goroutine at a time (go
                "Layer-A fakes of couchbase.Client / metadata.Metadata / models.Consumer are the trusted base; the fake store writes per vBucket like the Couchbase backend"]
 
 CHECKS = {
+    "C19": dict(
+        level="fault_enumeration",
+        rule="every case runs the real couchbase.NewHealthCheck (interval 10 ms) in a child process with a scripted Ping: ALL 32 success/failure "
+             "assignments of a round's five pings are enumerated (exhaustive), plus generated sequences of 1..3 rounds (<= 6 failures in total, "
+             "each costs the library's hard-coded 1 s retry wait; children sleep concurrently), Stop() before the first tick / inside the "
+             "retry wait at offsets 0..980 ms / after the rounds, repeated Start and repeated Stop. Oracle: the process dies with the ping error "
+             "iff some round has five consecutive failures; a round issues exactly (first success index + 1) pings, retries >= 1 s apart; Stop() "
+             "returns in < 0.9 s even at the start of a retry wait; no ping in a 1.5 s quiet window after Stop() returned; <= 1 ping per tick "
+             "after repeated Start. non-trivial = a round with a failure (exhaustive unit), >= 2 rounds or a Stop inside a retry wait (sequences)",
+        assumptions=["the first call is Start (Stop before Start is outside the property's domain)", "timing bounds are one-sided with >= 10% slack on the library's 1 s constant"],
+        units=[enum("TestC19_RoundsExhaustive", 4, 4), rapid("TestC19_Sequences", 1, 1, 2, 8)],
+    ),
     "C01": dict(
         level="fault_enumeration",
         rule="rapid op-lists (1..80 ops quick, ..300 thorough) over 1..6 (16) vBuckets: deliver(kind,gap,snapshot layout) / ack(next<=n, in order) / "
